@@ -52,6 +52,15 @@ class Ctx:
         self.raises = raises  # function can raise -> Except String
         self.source = source
         self.default_num = default_num
+        self.ctl = None          # inside a loop body: {"continue": fn, "break": fn}
+        self.fall = None         # what falling off the end of the current statement list means (loop bodies)
+        self.raise_wrap = lambda n: f'.error "{n}"'
+        self.propagate = lambda r: r   # how an early return value of an inner loop leaves the current context
+        self.fn_wrap = (lambda v: f".ok {v}") if raises else (lambda v: v)
+        self.aux = []            # auxiliary (loop) definitions, in emission order
+        self.fn_name = "f"
+        self.all_params = []     # [(name, type)] of the enclosing function incl. extra params
+        self.loop_counter = 0
 
     def typ(self, name):
         return self.types.get(name)
@@ -230,6 +239,8 @@ def expr(ctx: Ctx, e, want=None) -> str:
                 l = expr(ctx, left)
                 if isinstance(right, ast.Name) and ctx.typ(right.id) == "Dict":
                     s = f"(dictHas {r} {l})"
+                elif isinstance(right, ast.Name) and (ctx.typ(right.id) or "").startswith("AList"):
+                    s = f"(alistHas {r} {l})"
                 else:
                     s = f"(List.elem {l} {r})"
                 parts.append(s if isinstance(op, ast.In) else f"(!{s})")
@@ -418,12 +429,29 @@ def call(ctx, e, want):
     raise Untranslatable(f"call {fn}")
 
 
+MUTATORS = ("append", "remove", "add", "extend")
+
+
+def mutated_name(st):
+    """name mutated by an expression statement `x.append(..)` / `x[k] = v`, else None"""
+    if isinstance(st, ast.Expr) and isinstance(st.value, ast.Call) and isinstance(st.value.func, ast.Attribute) \
+            and st.value.func.attr in MUTATORS and isinstance(st.value.func.value, ast.Name):
+        return st.value.func.value.id
+    if isinstance(st, ast.Assign) and len(st.targets) == 1 and isinstance(st.targets[0], ast.Subscript) and isinstance(st.targets[0].value, ast.Name):
+        return st.targets[0].value.id
+    return None
+
+
 def assigned(stmts):
     out = []
     for s in stmts:
         for n in ast.walk(s):
             if isinstance(n, ast.Name) and isinstance(n.ctx, ast.Store) and n.id not in out:
                 out.append(n.id)
+            if isinstance(n, ast.stmt):
+                m = mutated_name(n)
+                if m and m not in out:
+                    out.append(m)
     return out
 
 
@@ -431,15 +459,26 @@ def always_exits(stmts):
     if not stmts:
         return False
     last = stmts[-1]
-    if isinstance(last, (ast.Return, ast.Raise)):
+    if isinstance(last, (ast.Return, ast.Raise, ast.Continue, ast.Break)):
         return True
     if isinstance(last, ast.If):
         return always_exits(last.body) and always_exits(last.orelse)
     return False
 
 
+def walk_no_loops(node):
+    """like ast.walk but does not descend into nested loops (their continue/break are their own)"""
+    yield node
+    for ch in ast.iter_child_nodes(node):
+        if isinstance(ch, (ast.For, ast.While)):
+            continue
+        yield from walk_no_loops(ch)
+
+
 def may_exit(stmts):
-    return any(isinstance(n, (ast.Return, ast.Raise)) for st in stmts for n in ast.walk(st))
+    if any(isinstance(n, (ast.Return, ast.Raise)) for st in stmts for n in ast.walk(st)):
+        return True
+    return any(isinstance(n, (ast.Continue, ast.Break)) for st in stmts if not isinstance(st, (ast.For, ast.While)) for n in walk_no_loops(st))
 
 
 def is_log(s):
@@ -453,15 +492,30 @@ def is_log(s):
 def block(ctx: Ctx, stmts, ret_wrap, ind="  ") -> str:
     """Translate a statement list in tail position."""
     if not stmts:
+        if ctx.fall is not None:
+            return ctx.fall()
         raise Untranslatable("fell off the end of function")
     s, rest = stmts[0], stmts[1:]
+    if isinstance(s, ast.Continue):
+        if ctx.ctl is None:
+            raise Untranslatable("continue outside a loop")
+        return ctx.ctl["continue"]()
+    if isinstance(s, ast.Break):
+        if ctx.ctl is None:
+            raise Untranslatable("break outside a loop")
+        return ctx.ctl["break"]()
+    if isinstance(s, ast.For):
+        return for_loop(ctx, s, rest, ret_wrap, ind)
+    m = mutated_name(s)
+    if m is not None:
+        return mutation(ctx, s, m) + f"\n{ind}" + block(ctx, rest, ret_wrap, ind)
     if is_log(s) or (isinstance(s, ast.Expr) and isinstance(s.value, ast.Constant)) or isinstance(s, ast.Pass):
         return block(ctx, rest, ret_wrap, ind)
     if isinstance(s, ast.Assert):
         txt = seg(ctx, s)
         if not ctx.raises or "isinstance" in txt or "all(" in txt or "len(" in txt:
             return block(ctx, rest, ret_wrap, ind)
-        return f'if !({expr(ctx, s.test)}) then .error "AssertionError" else\n{ind}' + block(
+        return f'if !({expr(ctx, s.test)}) then {ctx.raise_wrap("AssertionError")} else\n{ind}' + block(
             ctx, rest, ret_wrap, ind
         )
     if isinstance(s, ast.Return):
@@ -472,7 +526,7 @@ def block(ctx: Ctx, stmts, ret_wrap, ind="  ") -> str:
         if not ctx.raises:
             raise Untranslatable("raise in a function declared non-raising")
         name = s.exc.func.id if isinstance(s.exc, ast.Call) else ast.unparse(s.exc)
-        return f'.error "{name}"'
+        return ctx.raise_wrap(name)
     if isinstance(s, (ast.Assign, ast.AnnAssign)):
         if isinstance(s, ast.Assign) and len(s.targets) != 1:
             raise Untranslatable("chained assignment")
@@ -499,6 +553,8 @@ def block(ctx: Ctx, stmts, ret_wrap, ind="  ") -> str:
         else:
             if not isinstance(tgt, ast.Name):
                 raise Untranslatable(f"assignment target {seg(ctx, tgt)}")
+            if hasattr(ctx, "defined"):
+                ctx.defined.add(tgt.id)
             ty = ctx.typ(tgt.id)
             if ty is None:
                 if isinstance(s.value, ast.ListComp):
@@ -603,6 +659,186 @@ def block(ctx: Ctx, stmts, ret_wrap, ind="  ") -> str:
     raise Untranslatable(f"stmt {type(s).__name__}: {seg(ctx, s)[:70]}")
 
 
+def mutation(ctx, st, name):
+    """`x.append(e)` / `x.remove(e)` / `x.add(e)` / `x.extend(e)` / `x[k] = v` as a rebinding of x"""
+    ty = ctx.typ(name)
+    if ty is None:
+        raise Untranslatable(f"mutation of untyped variable {name}")
+    n = li(name)
+    if isinstance(st, ast.Assign):
+        tgt = st.targets[0]
+        if not ty.startswith("AList"):
+            raise Untranslatable(f"subscript assignment to non-dict {name}")
+        kt, vt = alist_types(ty)
+        return f"let {n} := alistSet {n} {expr(ctx, tgt.slice, kt)} {expr(ctx, st.value, vt)}"
+    call = st.value
+    attr = call.func.attr
+    if len(call.args) != 1:
+        raise Untranslatable(f"{attr} with {len(call.args)} arguments")
+    inner = ty[5:].strip() if ty.startswith("List ") else None
+    if inner and inner.startswith("(") and inner.endswith(")"):
+        inner = inner[1:-1]
+    if attr == "append":
+        return f"let {n} := {n} ++ [{expr(ctx, call.args[0], inner)}]"
+    if attr == "extend":
+        return f"let {n} := {n} ++ {expr(ctx, call.args[0], ty)}"
+    if attr == "remove":
+        return f"let {n} := List.erase {n} {expr(ctx, call.args[0], inner)}"
+    if attr == "add":
+        return f"let {n} := pySetAdd {n} {expr(ctx, call.args[0], inner)}"
+    raise Untranslatable(f"mutator {attr}")
+
+
+def alist_types(ty):
+    """'AList K V' -> (K, V); K and V are single tokens or parenthesised"""
+    rest = ty[len("AList"):].strip()
+    parts, depth, cur = [], 0, ""
+    for ch in rest:
+        if ch == "(":
+            depth += 1
+        if ch == ")":
+            depth -= 1
+        if ch == " " and depth == 0:
+            if cur:
+                parts.append(cur)
+            cur = ""
+        else:
+            cur += ch
+    if cur:
+        parts.append(cur)
+    if len(parts) != 2:
+        raise Untranslatable(f"dict type {ty}")
+    return tuple(x[1:-1] if x.startswith("(") and x.endswith(")") else x for x in parts)
+
+
+def elem_type(list_ty):
+    if not list_ty or not list_ty.startswith("List "):
+        return None
+    inner = list_ty[5:].strip()
+    if inner.startswith("(") and inner.endswith(")"):
+        inner = inner[1:-1]
+    return inner
+
+
+def split_prod(ty, n):
+    """split a right-nested product type 'A × B × C' into n components"""
+    parts, depth, cur = [], 0, ""
+    for tok in ty.split(" "):
+        depth += tok.count("(") - tok.count(")")
+        if tok == "×" and depth == 0 and len(parts) < n - 1:
+            parts.append(cur.strip())
+            cur = ""
+        else:
+            cur += " " + tok
+    parts.append(cur.strip())
+    return parts if len(parts) == n else None
+
+
+def loop_iter(ctx, node):
+    """-> (lean list expression, lean pattern, {python name: type})"""
+    tgt, it = node.target, node.iter
+    if isinstance(it, ast.Call) and norm(seg(ctx, it.func)) == "enumerate" and len(it.args) == 1:
+        if not (isinstance(tgt, ast.Tuple) and len(tgt.elts) == 2 and all(isinstance(e, ast.Name) for e in tgt.elts)):
+            raise Untranslatable("enumerate target")
+        et = elem_type(infer(ctx, it.args[0]) or lookup_type(ctx, it.args[0]))
+        if et is None:
+            raise Untranslatable(f"element type of {seg(ctx, it.args[0])}")
+        return f"(List.zipIdx {expr(ctx, it.args[0])})", f"({li(tgt.elts[1].id)}, {li(tgt.elts[0].id)})", {tgt.elts[0].id: "Nat", tgt.elts[1].id: et}, f"({et}) × Nat"
+    if isinstance(it, ast.Call) and norm(seg(ctx, it.func)) == "range" and len(it.args) == 1:
+        if not isinstance(tgt, ast.Name):
+            raise Untranslatable("range target")
+        return f"(List.range {expr(ctx, it.args[0], 'Nat')})", li(tgt.id), {tgt.id: "Nat"}, "Nat"
+    lt = lookup_type(ctx, it) or infer(ctx, it)
+    if isinstance(it, ast.Call) and norm(seg(ctx, it.func)) == "zip" and len(it.args) == 2:
+        a = elem_type(lookup_type(ctx, it.args[0]) or infer(ctx, it.args[0]))
+        b = elem_type(lookup_type(ctx, it.args[1]) or infer(ctx, it.args[1]))
+        if a is None or b is None:
+            raise Untranslatable("element types of zip")
+        lt = f"List (({a}) × ({b}))"
+    et = elem_type(lt)
+    if et is None:
+        raise Untranslatable(f"cannot type loop iterable {seg(ctx, it)}")
+    if isinstance(tgt, ast.Name):
+        return expr(ctx, it), li(tgt.id), {tgt.id: et}, et
+    if isinstance(tgt, ast.Tuple) and all(isinstance(e, ast.Name) for e in tgt.elts):
+        parts = split_prod(et, len(tgt.elts))
+        if parts is None:
+            raise Untranslatable(f"cannot destructure {et}")
+        return expr(ctx, it), pattern(tgt), {e.id: (p[1:-1] if p.startswith("(") and p.endswith(")") else p) for e, p in zip(tgt.elts, parts)}, et
+    raise Untranslatable("loop target")
+
+
+def for_loop(ctx, node, rest, ret_wrap, ind):
+    if node.orelse:
+        raise Untranslatable("for ... else")
+    it_expr, pat, tgt_types, et = loop_iter(ctx, node)
+    body = list(node.body)
+    state = [v for v in assigned(body) if v not in tgt_types and ctx.typ(v) is not None]
+    for v in state:
+        if ctx.typ(v) in (None, "List _"):
+            raise Untranslatable(f"loop state variable {v} has no concrete type")
+    has_exit = any(isinstance(n, (ast.Return, ast.Raise)) for st in body for n in ast.walk(st))
+    # free variables: every function parameter, plus typed locals read in the body
+    params = list(ctx.all_params)
+    pnames = {p for p, _ in params}
+    used = []
+    for st in body + [ast.Expr(value=node.iter)]:
+        for n in ast.walk(st):
+            if isinstance(n, ast.Name) and isinstance(n.ctx, ast.Load) and n.id not in used:
+                used.append(n.id)
+    frees = [(v, ctx.typ(v)) for v in used if v not in pnames and v not in state and v not in tgt_types and ctx.typ(v) not in (None, "List _")
+             and v in getattr(ctx, "defined", set())]
+    ctx.loop_counter += 1
+    k = ctx.loop_counter
+    aux_name = f"{ctx.fn_name}_loop{k}"
+    fixed = " ".join(li(p) for p, _ in params + frees if not p.startswith("{"))
+    st_names = [li(v) for v in state]
+    st_types = [ctx.typ(v) for v in state]
+    if not state:
+        sigma, st_tuple = "Unit", "()"
+    elif len(state) == 1:
+        sigma, st_tuple = st_types[0], st_names[0]
+    else:
+        sigma, st_tuple = " × ".join(f"({t})" for t in st_types), "(" + ", ".join(st_names) + ")"
+    rho = ctx.ret_type_full
+    res_ty = f"Loop ({rho}) ({sigma})" if has_exit else sigma
+    done = f".done {st_tuple}" if has_exit else st_tuple
+    rec = f"{aux_name} {fixed} rest_ " + " ".join(st_names)
+    # nested context for the body
+    sub = Ctx(ctx.types, ctx.consts, ctx.raises, ctx.source, ctx.default_num)
+    sub.types.update(tgt_types)
+    sub.fn_name, sub.all_params, sub.aux, sub.fn_wrap = ctx.fn_name, ctx.all_params, ctx.aux, ctx.fn_wrap
+    sub.ret_type_full = ctx.ret_type_full
+    sub.loop_counter = ctx.loop_counter
+    sub.defined = set(getattr(ctx, "defined", set())) | set(tgt_types)
+    sub.ctl = {"continue": lambda: rec.strip(), "break": lambda: done}
+    sub.fall = lambda: rec.strip()
+    if has_exit:
+        sub.raise_wrap = lambda n: f'.ret ({ctx.raise_wrap_fn(n)})'
+        sub.propagate = lambda r: f".ret {r}"
+        body_ret = lambda v: f".ret ({ctx.fn_wrap(v)})"
+    else:
+        sub.raise_wrap = lambda n: (_ for _ in ()).throw(Untranslatable("raise in exit-free loop"))
+        sub.propagate = lambda r: r
+        body_ret = lambda v: (_ for _ in ()).throw(Untranslatable("return in exit-free loop"))
+    sub.raise_wrap_fn = ctx.raise_wrap_fn
+    body_txt = block(sub, body, body_ret, "    ")
+    ctx.loop_counter = sub.loop_counter
+    sig = " ".join((f"{{{p[1:-1]} : {t}}}" if p.startswith("{") else f"({li(p)} : {t})") for p, t in params + frees)
+    st_sig = " → ".join(f"({t})" for t in st_types)
+    arrow = f"List ({et}) → " + (st_sig + " → " if st_types else "")
+    pats_nil = ", ".join(["[]"] + st_names)
+    pats_cons = ", ".join([f"{pat} :: rest_"] + st_names)
+    ctx.aux.append(f"def {aux_name} {sig} : {arrow}{res_ty}\n  | {pats_nil} => {done}\n  | {pats_cons} =>\n    {body_txt}\n")
+    call_ = f"{aux_name} {fixed} {it_expr} " + " ".join(st_names)
+    if not has_exit:
+        if not state:
+            return block(ctx, rest, ret_wrap, ind)
+        return f"let {st_tuple} := {call_.strip()}\n{ind}" + block(ctx, rest, ret_wrap, ind)
+    return (f"match {call_.strip()} with\n{ind}| .ret r_ => {ctx.propagate('r_')}\n{ind}| .done {st_tuple} =>\n{ind}  "
+            + block(ctx, rest, ret_wrap, ind + "  "))
+
+
 def find_func(tree, qual):
     body = tree.body
     node = None
@@ -656,10 +892,15 @@ def translate_function(
     t["return"] = ret
     ctx = Ctx(t, consts, raises, source, default_num)
     wrap = (lambda v: f".ok {v}") if raises else (lambda v: v)
-    body = block(ctx, stmts, wrap)
-    sig = " ".join(f"({li(k)} : {v})" for k, v in list(extra_params) + list(params.items()))
     rty = f"Except String ({ret})" if raises else ret
-    return f"def {lean_name} {sig} : {rty} :=\n  {body}\n"
+    ctx.fn_name = lean_name
+    ctx.all_params = list(extra_params) + list(params.items())
+    ctx.ret_type_full = rty
+    ctx.raise_wrap_fn = lambda n: f'.error "{n}"'
+    ctx.defined = set()
+    body = block(ctx, stmts, wrap)
+    sig = " ".join((f"{{{k[1:-1]} : {v}}}" if k.startswith("{") else f"({li(k)} : {v})") for k, v in list(extra_params) + list(params.items()))
+    return "\n".join(ctx.aux) + ("\n" if ctx.aux else "") + f"def {lean_name} {sig} : {rty} :=\n  {body}\n"
 
 
 def translate_expression(source, node, lean_name, params, ret, consts, types=None, default_num=None):
